@@ -32,6 +32,8 @@ import (
 	ct "github.com/google/certificate-transparency-go"
 	"github.com/google/certificate-transparency-go/verifhooks/witnessx"
 	"github.com/gorilla/mux"
+	"google.golang.org/grpc/codes"
+	"google.golang.org/grpc/status"
 
 	"verif/internal/keys"
 	"verif/internal/mtree"
@@ -594,6 +596,7 @@ type reply struct {
 	body     []byte
 	note     string // error text or HTTP status
 	conflict bool   // refusal that carries an STH: non-nil bytes next to the error / HTTP 409
+	outdated bool   // refusal signalled as "caller out of date": gRPC FailedPrecondition / HTTP 409
 }
 
 func (s *sut) update(id string, sth []byte, proof [][]byte) reply {
@@ -605,7 +608,7 @@ func (s *sut) updateCtx(ctx context.Context, id string, sth []byte, proof [][]by
 	if !s.useHTTP {
 		b, err := s.w.Update(ctx, id, sth, proof)
 		if err != nil {
-			return reply{ok: false, body: b, note: err.Error(), conflict: b != nil}
+			return reply{ok: false, body: b, note: err.Error(), conflict: b != nil, outdated: status.Code(err) == codes.FailedPrecondition}
 		}
 		return reply{ok: true, body: b}
 	}
@@ -653,7 +656,7 @@ func (s *sut) do(ctx context.Context, method, path string, body []byte) reply {
 	req := httptest.NewRequest(method, "http://witness.test"+path, bytes.NewReader(body)).WithContext(ctx)
 	rec := httptest.NewRecorder()
 	s.router.ServeHTTP(rec, req)
-	return reply{ok: rec.Code == http.StatusOK, body: rec.Body.Bytes(), note: "HTTP " + strconv.Itoa(rec.Code), conflict: rec.Code == http.StatusConflict}
+	return reply{ok: rec.Code == http.StatusOK, body: rec.Body.Bytes(), note: "HTTP " + strconv.Itoa(rec.Code), conflict: rec.Code == http.StatusConflict, outdated: rec.Code == http.StatusConflict}
 }
 
 // checkCosigned judges one cosigned STH returned by the witness against the candidate the oracle
